@@ -19,6 +19,22 @@ CHECKS = {
             'identity is evaluated exactly (Fractions) for every zone and period k>=2 (k>=1 without initial conditions); the '
             'observed ledgers must equal the ledgers the spec predicts (drift otherwise).',
             'DESIGN.md section 6 C01'),
+    'C02': (['Solver', 'Solver_Trace'],
+            'TLA+ spec Solver.tla (per-period control structure: sweeps, error class, cap, raise/append/decorate) model-checked '
+            'by TLC; TLC-generated control behaviours realised as real equation blocks, plus seeded random systems with known '
+            'Lipschitz bound; per-period events of the real EquationSolver validated by TLC against Solver_Trace.tla',
+            'TLC enumerates every outcome sequence (converge / not yet / overflow / transient or persistent evaluation error) '
+            'within Cap and Horizon bounds with C02_SolvedOnlyIfConverged; each is realised on the real solver; on every returned '
+            'solve the residual / decorative / lagged / exogenous predicates (exact Fractions from the reported floats) must hold.',
+            'DESIGN.md section 6 C02'),
+    'C03': (['Reduction', 'Reduction_Trace'],
+            'TLA+ spec Reduction.tla (FindExactMatches with its stale list, Rebuild, MoveDecorative; per-period semantics Sol) '
+            'model-checked by TLC; every TLC-generated system solved by two real solvers (reduction on / off) and compared; '
+            'traces validated by TLC against Reduction_Trace.tla',
+            'All acyclic systems over <=2 (quick, plus a 3-variable slice) / 3 variables (thorough, 4 sampled) with aliases, lags, '
+            'constants, exogenous, time and initial conditions are enumerated by TLC with C03_SameSolution / C03_Partition; '
+            'observed on/off series must be identical for every variable and k>=0; cyclic contractive systems within a proven bound.',
+            'DESIGN.md section 6 C03'),
     'C04': (['ModelBuild', 'ModelBuild_Trace'], MB,
             'TLC checks C04_MarketsClear / C04_DemandersBooked in every final state; on rebuilt models every goods, labour, money '
             'and deposit market is checked exactly for every period: demand = sum of declared demanders, supply = demand, '
@@ -63,6 +79,15 @@ CHECKS = {
             'each block is parsed by the real parser and judged class by class; with/without comments must give identical parser '
             'lists and solved series; SIM built with hostile descriptions must give identical results.',
             'DESIGN.md section 6 C14'),
+    'C11': (['Solver', 'Solver_Trace', 'Reject', 'Reject_Trace'],
+            'TLA+ specs Solver.tla (cap, error classification, prefix/lengths after failure) and Reject.tla (invalid names and '
+            'declarations) model-checked by TLC; control behaviours and declaration sequences replayed on the real solver / '
+            'model classes; events validated by TLC against Solver_Trace.tla and Reject_Trace.tla',
+            'TLC enumerates failing and succeeding period sequences (C11_BoundedSweeps, C11_FailureRaises, C11_PrefixIntact, '
+            'C11_EqualLengthsAfterFailure) and every invalid declaration position; the real code must raise the right error class '
+            'within cap+1 sweeps with earlier periods intact, solve every sup-norm contraction (<=0.8) within the default cap, and '
+            'reject every reserved name / duplicate / ill-formed declaration before numbers exist.',
+            'DESIGN.md section 6 C11'),
     'C12': (['Equation', 'Equation_Trace'],
             'TLA+ spec Equation.tla model-checked exhaustively by TLC; every TLC-generated behaviour replayed on the real '
             'Equation/Term/create_equation_from_terms; recorded executions validated by TLC against Equation_Trace.tla',
@@ -98,6 +123,14 @@ CHECKS = {
             'All name sets / ragged lengths of the bounded instance enumerated by TLC with C19_Header / C19_RowCount; every '
             'behaviour rendered by the real code, header/rows/cells judged by TLC on the observed table.',
             'DESIGN.md section 6 C19'),
+    'C20': (['Codegen', 'Codegen_Trace'],
+            'TLA+ spec Codegen.tla (parser lists -> pack / iterate / unpack name sets of the generated module -> its step state) '
+            'model-checked by TLC; every TLC-generated block given to the real IterativeMachineGenerator, the written module '
+            'imported and run; events validated by TLC against Codegen_Trace.tla',
+            'TLC enumerates the block grammar (with / without user time axis, lags, initial conditions, exogenous lists, constants) '
+            'with C20_Closed / C20_HeaderTimeFirst / C20_StepAppendsAll; each generated module must import, run, satisfy its equations '
+            'on its own values (exact Fractions) and agree with the in-process solver.',
+            'DESIGN.md section 6 C20'),
 }
 
 PENDING = {}
